@@ -47,6 +47,7 @@ type FuncContract struct {
 	Inline   bool
 	Trusted  bool // contract of a dependency (assumed, not verified)
 	Opaque   bool // module function assumed without proof (listed as assumption)
+	Sweep    bool // safety-only verification of the body (see `sweep`)
 	Checks   map[string]bool
 	Stables  []Clause
 	Locals   []LocalDef
@@ -472,6 +473,14 @@ func (cs *ContractSet) ParseContractFile(path, pkg string, trusted bool) error {
 					cur.Modes[m] = true
 				}
 			case "checks":
+				for _, m := range strings.FieldsFunc(rest, func(r rune) bool { return r == ',' || r == ' ' }) {
+					cur.Checks[m] = true
+				}
+			case "sweep":
+				// `sweep idx slice div`: safety-only verification of the body (implicit panics of
+				// the listed kinds become obligations); with `opaque` the rest of the contract
+				// stays assumed and no frame/post obligations are generated
+				cur.Sweep = true
 				for _, m := range strings.FieldsFunc(rest, func(r rune) bool { return r == ',' || r == ' ' }) {
 					cur.Checks[m] = true
 				}
